@@ -131,6 +131,8 @@ def render_func(prog, fname):
                 lines.append(f"    {r} = Box({nm}()).get()")        # ... through the inner call of a method chain
             elif it.get("wrap") == "hokw":
                 lines.append(f"    {r} = ident(v=[0], key={nm}) and [g_() for g_ in [ident(key={nm})]]")
+            elif it.get("rtarg") is not None:
+                lines.append(f"    {r} = {nm}({it['rtarg']})")       # a plain helper called with a local
             else:
                 lines.append(f"    {r} = {nm}()")
         elif t == "ho":
